@@ -3,6 +3,7 @@ package checks
 import (
 	"bytes"
 	"encoding/binary"
+	"encoding/hex"
 	"errors"
 	"fmt"
 	"io"
@@ -31,6 +32,10 @@ type segCase struct {
 	Reqs   []*refcodec.Msg `json:"reqs"` // mutually independent requests
 	Splits []int           `json:"splits"`
 	CutAt  int             `json:"cut_at"` // -1: whole stream; else the stream ends after this many bytes
+	// Raw[i] != "" replaces request i by these frame bytes (hex): a frame the
+	// receiver rejects but that is well delimited (unknown type with a body, a
+	// payload message shorter than its fixed part, a list shorter than its count)
+	Raw []string `json:"raw,omitempty"`
 }
 
 type segResult struct {
@@ -40,16 +45,50 @@ type segResult struct {
 
 var segSetup = []*refcodec.Msg{tAttach(0, nofid, ""), tWalk(0, 1, "file"), tOpen(1, 2)}
 
-func segStream(reqs []*refcodec.Msg) ([]byte, []int) {
+func segStream(reqs []*refcodec.Msg) ([]byte, []int) { return segStreamRaw(reqs, nil) }
+
+func segStreamRaw(reqs []*refcodec.Msg, raw []string) ([]byte, []int) {
 	var b []byte
 	var ends []int
 	for i, r := range reqs {
+		if i < len(raw) && raw[i] != "" {
+			fr, _ := hex.DecodeString(raw[i])
+			if len(fr) >= 7 {
+				binary.LittleEndian.PutUint16(fr[5:], uint16(10+i))
+			}
+			b = append(b, fr...)
+			ends = append(ends, len(b))
+			continue
+		}
 		c := cloneMsg(r)
 		c.Tag = uint16(10 + i)
 		b = append(b, refcodec.Encode(c)...)
 		ends = append(ends, len(b))
 	}
 	return b, ends
+}
+
+// genRejectedFrame builds a frame the server must reject and skip as a whole.
+func genRejectedFrame(rt *rapid.T) (string, string) {
+	switch rapid.IntRange(0, 2).Draw(rt, "rk") {
+	case 0: // unknown type, any body
+		known := map[uint8]bool{}
+		for _, t := range p9.VerifRegisteredTypes() {
+			known[t] = true
+		}
+		t := rapid.Uint8().Filter(func(t uint8) bool { return !known[t] }).Draw(rt, "rtype")
+		n := rapid.SampledFrom([]int{0, 1, 2, 9, 40, 300, 5000}).Draw(rt, "rn")
+		return hex.EncodeToString(refcodec.Frame(t, 0, bytes.Repeat([]byte{0x5a}, n))), "unknown-type"
+	case 1: // Twrite whose body is shorter than its fixed part
+		n := rapid.IntRange(0, 15).Draw(rt, "rshort")
+		return hex.EncodeToString(refcodec.Frame(refcodec.Twrite, 0, bytes.Repeat([]byte{1}, n))), "short-payload-message"
+	default: // Twalk announcing more names than it carries
+		fr := refcodec.Encode(tWalk(0, 70, "abc", "defgh"))
+		cut := rapid.IntRange(1, 9).Draw(rt, "rcut")
+		fr = fr[:len(fr)-cut]
+		binary.LittleEndian.PutUint32(fr, uint32(len(fr)))
+		return hex.EncodeToString(fr), "short-list"
+	}
 }
 
 func normRec(rc mockfs.Rec, known map[int]string) string {
@@ -66,7 +105,7 @@ func runSeg(c segCase) (*segResult, *fail) {
 	mock := mockfs.New(true)
 	mock.DefaultMode = p9.ModeRegular | 0o644
 	srv := p9.NewServer(mock)
-	stream, _ := segStream(c.Reqs)
+	stream, _ := segStreamRaw(c.Reqs, c.Raw)
 	if c.CutAt >= 0 && c.CutAt < len(stream) {
 		stream = stream[:c.CutAt]
 	}
@@ -197,10 +236,10 @@ func segCompare(c segCase, base, got *segResult, what string) *fail {
 
 // runSegCase: the metamorphic relation.
 func runSegCase(c segCase) *fail {
-	stream, ends := segStream(c.Reqs)
+	stream, ends := segStreamRaw(c.Reqs, c.Raw)
 	// reference: the same requests, whole-stream delivery through an io.Reader;
 	// for a truncated stream only the frames that are completely contained
-	ref := segCase{Path: "reader", Reqs: c.Reqs, CutAt: -1}
+	ref := segCase{Path: "reader", Reqs: c.Reqs, Raw: c.Raw, CutAt: -1}
 	if c.CutAt >= 0 && c.CutAt < len(stream) {
 		n := 0
 		for _, e := range ends {
@@ -209,6 +248,9 @@ func runSegCase(c segCase) *fail {
 			}
 		}
 		ref.Reqs = c.Reqs[:n]
+		if len(ref.Raw) > n {
+			ref.Raw = ref.Raw[:n]
+		}
 	}
 	base, f := runSeg(ref)
 	if f != nil {
@@ -222,7 +264,22 @@ func runSegCase(c segCase) *fail {
 	if c.CutAt >= 0 {
 		what = "truncated"
 	}
-	return segCompare(c, base, got, what)
+	f = segCompare(c, base, got, what)
+	if f != nil && c.CutAt >= 0 && len(ref.Reqs) < len(c.Reqs) && len(ref.Reqs) < len(c.Raw) && c.Raw[len(ref.Reqs)] != "" {
+		// The stream ends inside a frame that is rejected on the strength of its
+		// header alone: answering it with Rlerror before noticing the end of the
+		// stream delivers no truncated message, so both outcomes are accepted.
+		ref2 := ref
+		ref2.Reqs, ref2.Raw = c.Reqs[:len(ref.Reqs)+1], c.Raw[:len(ref.Reqs)+1]
+		base2, f2 := runSeg(ref2)
+		if f2 != nil {
+			return f2
+		}
+		if segCompare(c, base2, got, what) == nil {
+			return nil
+		}
+	}
+	return f
 }
 
 func genSegReq(rt *rapid.T, i int) *refcodec.Msg {
@@ -496,7 +553,7 @@ func init() {
 }
 
 func segHash(c segCase) uint64 {
-	s, _ := segStream(c.Reqs)
+	s, _ := segStreamRaw(c.Reqs, c.Raw)
 	var sp []uint32
 	for _, x := range c.Splits {
 		sp = append(sp, uint32(x))
@@ -588,7 +645,20 @@ func TestC17(t *testing.T) {
 		for i := 0; i < nr; i++ {
 			c.Reqs = append(c.Reqs, genSegReq(rt, i))
 		}
-		stream, _ := segStream(c.Reqs)
+		if rapid.IntRange(0, 2).Draw(rt, "rejected") == 0 {
+			// one rejected frame somewhere in the stream (one: a short payload message is answered with NOTAG)
+			c.Raw = make([]string, nr)
+			c.Raw[rapid.IntRange(0, nr-1).Draw(rt, "rat")], _ = genRejectedFrame(rt)
+		}
+		stream, ends := segStreamRaw(c.Reqs, c.Raw)
+		if c.Raw != nil && rapid.Bool().Draw(rt, "aim") {
+			// aim one split into the rejected frame
+			for i, r := range c.Raw {
+				if r != "" && ends[i]-len(r)/2+1 < ends[i] {
+					c.Splits = append(c.Splits, rapid.IntRange(ends[i]-len(r)/2+1, ends[i]-1).Draw(rt, "rsp"))
+				}
+			}
+		}
 		switch rapid.IntRange(0, 4).Draw(rt, "mode") {
 		case 0:
 			for i := 1; i < len(stream) && i < 400; i++ {
@@ -606,12 +676,25 @@ func TestC17(t *testing.T) {
 		return c
 	}, func(c segCase) *fail {
 		f := runSegCase(c)
-		_, ends := segStream(c.Reqs)
+		_, ends := segStreamRaw(c.Reqs, c.Raw)
 		inside := false
 		for _, sp := range c.Splits {
 			inside = inside || strictlyInside(ends, sp)
 		}
-		h.Case(segHash(c), inside || c.CutAt >= 0, "server:random:"+c.Path)
+		cls := "server:random:" + c.Path
+		for i, r := range c.Raw {
+			if r == "" {
+				continue
+			}
+			cls = "server:random-with-rejected-frame:" + c.Path
+			for _, sp := range c.Splits {
+				if sp > ends[i]-len(r)/2 && sp < ends[i] {
+					h.Count("split-inside-a-rejected-frame", 1)
+					break
+				}
+			}
+		}
+		h.Case(segHash(c), inside || c.CutAt >= 0, cls)
 		if inside && h.WantSample("server") {
 			h.Sample("server", c)
 		}
